@@ -224,6 +224,74 @@ func InjectHistory(steps []Step, opt sidecar.InjectConfigOptions) ([]byte, error
 	return data, nil
 }
 
+// InjectRetryAfterWriteError: one injector; the assignment `first` is written (unless nil), then writing the file
+// for `second` fails once, then `second` is delivered again (the coordinator repeats an update that was not
+// acknowledged). Returns the file as it is on disk after the acknowledged retry.
+func InjectRetryAfterWriteError(info *prom.ConfigInfo, first, second map[string][]*target.Target, opt sidecar.InjectConfigOptions) (file []byte, failedAck bool, err error) {
+	inj := sidecar.NewInjector("/nonexistent/out.yml", opt, prometheus.NewRegistry(), quiet)
+	failNext := false
+	inj.VerifSetWriteFile(func(fn string, d []byte, perm os.FileMode) error {
+		if failNext {
+			failNext = false
+			return fmt.Errorf("scripted: no space left on device")
+		}
+		file = append([]byte{}, d...)
+		return nil
+	})
+	if err := inj.ApplyConfig(info); err != nil {
+		return nil, false, err
+	}
+	if first != nil {
+		if err := inj.UpdateTargets(first); err != nil {
+			return nil, false, err
+		}
+	}
+	failNext = true
+	if err := inj.UpdateTargets(second); err == nil && !failNext {
+		failedAck = true // the failed write was acknowledged
+	}
+	failNext = false
+	if err := inj.UpdateTargets(second); err != nil {
+		return nil, failedAck, err
+	}
+	return file, failedAck, nil
+}
+
+// InjectAfterRejectedFileReload: a sidecar started with a configuration FILE: the file is loaded, `first` is
+// assigned, the file is overwritten with content Prometheus' loader rejects and reloaded (rejected: the running
+// configuration stays), then `second` is assigned. Returns the generated file after the last step.
+func InjectAfterRejectedFileReload(dir, text, rejected string, first, second map[string][]*target.Target, opt sidecar.InjectConfigOptions) ([]byte, error) {
+	if err := os.MkdirAll(dir, 0o755); err != nil {
+		return nil, err
+	}
+	path := dir + "/prometheus-in.yml"
+	if err := os.WriteFile(path, []byte(text), 0o644); err != nil {
+		return nil, err
+	}
+	defer os.Remove(path)
+	inj := sidecar.NewInjector("/nonexistent/out.yml", opt, prometheus.NewRegistry(), quiet)
+	var data []byte
+	inj.VerifSetWriteFile(func(fn string, d []byte, perm os.FileMode) error { data = append([]byte{}, d...); return nil })
+	cm := prom.NewConfigManager()
+	cm.AddReloadCallbacks(inj.ApplyConfig)
+	if err := cm.ReloadFromFile(path); err != nil {
+		return nil, fmt.Errorf("accepted text rejected: %v", err)
+	}
+	if err := inj.UpdateTargets(first); err != nil {
+		return nil, err
+	}
+	if err := os.WriteFile(path, []byte(rejected), 0o644); err != nil {
+		return nil, err
+	}
+	if err := cm.ReloadFromFile(path); err == nil {
+		return nil, fmt.Errorf("HARNESS: the text meant to be rejected was accepted")
+	}
+	if err := inj.UpdateTargets(second); err != nil {
+		return nil, err
+	}
+	return data, nil
+}
+
 type recTransport struct{ urls []*url.URL }
 
 func (r *recTransport) RoundTrip(req *http.Request) (*http.Response, error) {
